@@ -110,7 +110,9 @@ func genForms(r *h.Rand) formSet {
 			forms = append(forms, args[0]+" | "+f+"("+join(rest)+")")
 			forms = append(forms, args[0]+" | "+f+": "+join(rest))
 		}
-		forms = append(forms, args[0]+" | ident | "+f+"("+join(rest)+")")
+		if args[0] != "n" { // ident itself rejects an invalid value
+			forms = append(forms, args[0]+" | ident | "+f+"("+join(rest)+")")
+		}
 		// slot at every position
 		for k := 0; k < n; k++ {
 			with := append([]string{}, args...)
